@@ -180,6 +180,33 @@ def rules(rep, m):
     pre = m.need("cmb_resource_preempt")
     pcx = FuncCtx(m, pre)
     evict = [c for c in walk(pre.body) if c["kind"] == "CallExpr" and callee_ref(c) == "cmi_process_remove_holdable"]
+    # the process that loses its holding tag when the holder slot is taken over is the process that held the resource
+    takeover = [n_ for l_, r_, k_, n_ in inv.stores(pre) if pcx.canon(l_).endswith("->holder") and is_null_expr(r_)]
+    if takeover:
+        holder_txt = pcx.canon([l_ for l_, r_, k_, n_ in inv.stores(pre) if n_ is takeover[0]][0])
+        r4.instance("%s: takes over at %s; tags removed from %s" % (pre.name, m.rel(loc(takeover[0])),
+                                                                    [pcx.canon(kids(c)[1]) for c in evict]))
+        if not any(pcx.canon(kids(c)[1]) == holder_txt for c in evict):
+            rep.finding(r4, pre.name, "evict:wrong-process", "%s clears the holder but removes the holding tag from %s, not from the "
+                        "process that held the resource (%s): the evicted process keeps a stale 'I hold this' tag, and when it "
+                        "ends its drop callback frees the resource under the new holder"
+                        % (pre.name, [pcx.canon(kids(c)[1]) for c in evict] or "nobody", holder_txt), where=m.rel(loc(takeover[0])))
+            r4.fail()
+        else:
+            r4.ok()
+    # the withdrawal the eviction relies on really withdraws everything addressed to the process
+    from . import c09 as _c09
+    okf, txt = _c09.final_cancel_ok(m)
+    r4.instance("cmi_process_cancel_awaiteds ends with a wildcard cancel of the process's pending events %s: %s" % (txt, okf))
+    if not okf:
+        rep.finding(r4, "cmi_process_cancel_awaiteds", "evict:withdrawal-incomplete", "the routine that withdraws an evicted "
+                    "holder's pending wake-ups does not cancel every event whose subject is that process %s: a wake-up that is "
+                    "already scheduled (the process was waiting for something that happened in this instant) survives the "
+                    "eviction, the victim resumes with success and releases the resource under the new holder" % txt,
+                    where=m.rel(m.need("cmi_process_cancel_awaiteds").where))
+        r4.fail()
+    else:
+        r4.ok()
     for c in evict:
         vic = pcx.canon(kids(c)[1])
         if vic == "cmb_process_current()":
